@@ -4,6 +4,7 @@ import (
 	"hash/fnv"
 	"path"
 	"strconv"
+	"sync"
 	"sync/atomic"
 
 	"github.com/internetarchive/Zeno/pkg/models"
@@ -18,6 +19,11 @@ type Seencheck struct {
 
 var (
 	globalSeencheck *Seencheck
+
+	// checkAndSetMu makes the lookup and the recording of one URL atomic: several preprocessor
+	// workers seencheck concurrently, and an interleaved lookup/record pair could overwrite a
+	// "seed" record with "asset" (the seed URL was then crawled again later).
+	checkAndSetMu sync.Mutex
 )
 
 func Start(jobPath string) (err error) {
@@ -95,11 +101,13 @@ func SeencheckItem(item *models.Item) error {
 			URLType = "seed"
 		}
 
+		checkAndSetMu.Lock()
 		found, foundType := isSeen(hash)
 
 		if !found {
 			// First time seen: mark and process
 			seen(hash, URLType)
+			checkAndSetMu.Unlock()
 			h.Reset()
 			continue
 		}
@@ -107,9 +115,11 @@ func SeencheckItem(item *models.Item) error {
 		if foundType == "asset" && URLType == "seed" {
 			// Promotion: allow processing again as seed
 			seen(hash, "seed")
+			checkAndSetMu.Unlock()
 			h.Reset()
 			continue
 		}
+		checkAndSetMu.Unlock()
 
 		// All other cases: already seen, skip
 		items[i].SetStatus(models.ItemSeen)
